@@ -56,7 +56,7 @@ def main():
             return rc, out[-1500:]
         elif demo == "demo.sh":
             sh("cargo build --offline --bin comrak", cwd=wt, env=env)
-            return sh(f"sh {os.path.join(dst, 'demo.sh')}", cwd=wt, env=env)
+            return sh(f"sh {os.path.join(dst, 'demo.sh')} {wt}", cwd=wt, env=env)
         return None, "no demo"
     if not skip_confirm:
         rc0, o0 = run_demo()
